@@ -118,6 +118,8 @@ class Env:
     """One SQLite file with store + queue + event store, any number of workflows.
 
     spec of a workflow: list of stages {"reqs": [i...], "tasks": ["S","T",...], "enabled": None|False|True, "cont": bool}
+    optional per stage: "synth": [{"owner": "B" | "A", "tasks": [...]}, ...] = pre-declared synthetic STAGE_BEFORE / STAGE_AFTER
+    children, built the way the repo's tests build them; they are the stage indices after the top-level ones (refs w<i>s<idx>)
     """
 
     def __init__(self, workdir: Path, name: str = "e", same_db: bool = True):
@@ -135,6 +137,7 @@ class Env:
         self.executions: list[tuple] = []
         self.current_task_name: str | None = None
         self.published: list[dict] = []          # {"seq", "type", "kind", "eid", "committed": bool}
+        self.writers: dict[tuple[str, str], str] = {}
         self.ro: sqlite3.Connection | None = None
         self.open(create=True)
 
@@ -170,6 +173,18 @@ class Env:
                 pass
         self.ro = sqlite3.connect(str(self.path), isolation_level=None, check_same_thread=False)
         self.ro.row_factory = sqlite3.Row
+        if create:
+            # which delivery wrote which status: SQL triggers log every durable status change, deliver() attributes the new rows
+            self.ro.executescript(
+                """
+                CREATE TABLE IF NOT EXISTS _audit(seq INTEGER PRIMARY KEY AUTOINCREMENT, kind TEXT, id TEXT, old TEXT, new TEXT);
+                CREATE TRIGGER IF NOT EXISTS _au_s AFTER UPDATE OF status ON stage_executions WHEN OLD.status <> NEW.status
+                  BEGIN INSERT INTO _audit(kind,id,old,new) VALUES('S', NEW.id, OLD.status, NEW.status); END;
+                CREATE TRIGGER IF NOT EXISTS _au_t AFTER UPDATE OF status ON task_executions WHEN OLD.status <> NEW.status
+                  BEGIN INSERT INTO _audit(kind,id,old,new) VALUES('T', NEW.id, OLD.status, NEW.status); END;
+                """
+            )
+            self.writers = {}
         if self.evpath != self.path:
             self.ro_ev = sqlite3.connect(str(self.evpath), isolation_level=None, check_same_thread=False)
             self.ro_ev.row_factory = sqlite3.Row
@@ -220,6 +235,21 @@ class Env:
                 extra = {"join_type": JoinType[sp["join"]], "join_threshold": sp.get("threshold", 0)}
             stages.append(StageExecution(ref_id=f"s{i}", type="scripted", name=f"s{i}", context=ctx, tasks=tasks,
                                          requisite_stage_ref_ids={f"s{r}" for r in sp.get("reqs", [])}, **extra))
+        n_top = len(stages)
+        for par, sp in enumerate(spec):
+            for ch in sp.get("synth") or []:
+                from stabilize.models.stage import SyntheticStageOwner
+
+                i = len(stages)
+                tasks_oc = ch.get("tasks", ["S"])
+                tasks = [TaskExecution.create(name=f"tk{t}", implementing_class="scripted", stage_start=(t == 0),
+                                              stage_end=(t == len(tasks_oc) - 1)) for t in range(len(tasks_oc))]
+                child = StageExecution(ref_id=f"s{i}", type="scripted", name=f"s{i}", tasks=tasks,
+                                       context={"_oc": {f"tk{t}": oc for t, oc in enumerate(tasks_oc)}},
+                                       synthetic_stage_owner=(SyntheticStageOwner.STAGE_BEFORE if ch["owner"] == "B" else SyntheticStageOwner.STAGE_AFTER))
+                child.parent_stage_id = stages[par].id
+                stages.append(child)
+        del n_top
         wf = Workflow.create(application="verif", name=f"wf{len(self.workflows)}", stages=stages)
         self.store.store(wf)
         w = {"id": wf.id, "obj": wf, "type": wf.type.value, "stage_ids": [s.id for s in stages], "spec": spec,
@@ -282,6 +312,7 @@ class Env:
             for w in self.workflows:
                 if payload.get("task_id") in w["task_ids"]:
                     self.current_task_name = f"tk{w['task_ids'][payload['task_id']][1]}"
+        mark = self.ro.execute("SELECT COALESCE(MAX(seq), 0) FROM _audit").fetchone()[0]
         try:
             self.processor._handle_message(m)
             self.queue.ack(m)
@@ -290,6 +321,14 @@ class Env:
             m.set_error_context(e)
             self.queue.reschedule(m, timedelta(0))
             return "raised:" + type(e).__name__
+        finally:
+            # (also after a kill: what the dead worker committed before it died is attributed to its message)
+            for r in self.ro.execute("SELECT id, new FROM _audit WHERE seq > ?", (mark,)).fetchall():
+                self.writers[(r["id"], r["new"])] = row["message_type"]
+
+    def writer_of(self, ident: str, status: str) -> str | None:
+        """message type of the delivery that (last) wrote `status` into the stage / task row `ident`"""
+        return self.writers.get((ident, status))
 
     def drain(self, rng=None, reorder: float = 0.0, max_steps: int = 400, on_step=None, picks=None) -> list[str]:
         """Deliver pending messages until the queue is empty; lowest id first, or (prob. `reorder`) a random one;
